@@ -433,6 +433,7 @@ def decisionBudget : List (String × String × Nat) :=
    ("header", "<=", 1),
    ("header", ">=", 1),
    ("header", "&&", 9),
+   ("header", "conv:as", 7),
    ("header", ".contains", 2),
    ("header", "sml:0", 3),
    ("header", "sml:1", 4),
@@ -456,6 +457,7 @@ def decisionBudget : List (String × String × Nat) :=
    ("sign", "if", 4),
    ("sign", "match", 5),
    ("sign", "!=", 3),
+   ("sign", "conv:as", 2),
    ("sign", "sml:0", 3),
    ("sign", "sml:1", 3),
    ("sign", "sml:2", 3),
@@ -474,6 +476,7 @@ def decisionBudget : List (String × String × Nat) :=
    ("mac", "if", 2),
    ("mac", "match", 5),
    ("mac", "!=", 2),
+   ("mac", "conv:as", 2),
    ("mac", "sml:0", 2),
    ("mac", "sml:1", 2),
    ("mac", "sml:2", 2),
@@ -493,6 +496,7 @@ def decisionBudget : List (String × String × Nat) :=
    ("encrypt", "==", 1),
    ("encrypt", "!=", 4),
    ("encrypt", "&&", 1),
+   ("encrypt", "conv:as", 2),
    ("encrypt", "sml:0", 3),
    ("encrypt", "sml:1", 3),
    ("encrypt", "sml:2", 3),
@@ -514,6 +518,7 @@ def decisionBudget : List (String × String × Nat) :=
    ("key", "if", 10),
    ("key", "match", 2),
    ("key", "==", 1),
+   ("key", "conv:as", 15),
    ("key", ".contains", 2),
    ("key", ".cmp", 1),
    ("key", "str:empty array", 1),
@@ -553,6 +558,7 @@ def decisionBudget : List (String × String × Nat) :=
    ("iana", "if", 1),
    ("iana", "match", 1),
    ("iana", "==", 1),
+   ("iana", "conv:as", 2),
    ("iana", "lt", 4),
    ("common", "call:from_reader", 1),
    ("common", "call:into_writer", 1),
